@@ -142,6 +142,21 @@ def gs2Row (kind : Nat) (cm adv : List String) : String × String :=
     else (name, (gs2Flag (clientOpts (connOfKind kind) adv "user" "pw" "") name).toString)
   | none => ("-", "-")
 
+/-! ### the conditions of `<failure/>` (`internal/saslerr`) -/
+
+/-- the defined conditions (`saslerr.Condition`, RFC 6120 §6.5) -/
+def definedConds : List String :=
+  ["aborted", "account-disabled", "credentials-expired", "encryption-required", "incorrect-encoding",
+   "invalid-authzid", "invalid-mechanism", "malformed-request", "mechanism-too-weak", "not-authorized",
+   "temporary-auth-failure"]
+
+/-- `saslerr.Error.Error()` of a decoded `<failure/>` without text: the condition, `none` when
+the child is not a defined condition or missing -/
+def failureText (cond : String) : String := if definedConds.contains cond then cond else "none"
+
+/-- the conditions `negotiateServer` sends (`sendSASLError`) -/
+def serverFailureConds : List String := ["invalid-mechanism", "aborted", "malformed-request", "not-authorized"]
+
 /-! ## many sessions, with a shared component -/
 
 /-- What the sessions on one feature value could share.  `σ` is the store; `init` its value
@@ -190,5 +205,125 @@ def leakyShared : Shared (Option SCur) where
 def sessSummary : SSess → Option (Bool × List PermCall)
   | .finished r => some (r.authn, r.perms)
   | .running .. => none
+
+end XmppModel.Sasl
+
+namespace XmppModel.Sasl
+
+/-! ## the initiating side in small steps, many sessions on one `xmpp.SASL` value
+
+A client library negotiates all its connections with one `xmpp.SASL(identity, password, …)`
+value.  A quantum of a session is: the selection of the mechanism, its `Start` and the
+`<auth/>` element; then one peer element per quantum. -/
+
+inductive CSess
+  /-- before `selectmechanism:` -/
+  | init (adv : List String) (peer : List CEv)
+  /-- inside `for more { … }` -/
+  | looping (name : String) (mech : Mech) (hist : List Bytes) (rest : List CEv) (sent : List CSent) (n : Nat)
+  /-- the mechanism is done, the closing element is awaited (`if !success { … }`) -/
+  | closing (name : String) (hist : List Bytes) (rest : List CEv) (sent : List CSent) (n : Nat)
+  | finished (r : CRes)
+
+/-- put what was done before the last quantum in front of its result -/
+def CRes.prefixed (r : CRes) (name : String) (sent : List CSent) (n : Nat) : CRes :=
+  { r with used := some name, sent := sent ++ r.sent, consumed := r.consumed + n }
+
+/-- what one peer element does to the `for more` loop -/
+inductive COut
+  | stop (r : CRes)
+  | more (hist : List Bytes) (resp : Bytes)
+  | done (hist : List Bytes) (resp : Bytes)
+
+def cevent (mech : Mech) (hist : List Bytes) : CEv → COut
+  | .challenge p =>
+    match p.decodeClient with
+    | none => .stop (fail .b64 hist 1)
+    | some c =>
+      match (mech (hist ++ [c])).kind with
+      | .more => .more (hist ++ [c]) (mech (hist ++ [c])).resp
+      | .done => .done (hist ++ [c]) (mech (hist ++ [c])).resp
+      | .authnErr => .stop (fail .authnErr (hist ++ [c]) 1)
+      | .otherErr => .stop (fail (stepErr (mech (hist ++ [c]))) (hist ++ [c]) 1)
+  | .success p =>
+    match p.decodeClient with
+    | none => .stop (fail .b64 hist 1)
+    | some c =>
+      match (mech (hist ++ [c])).kind with
+      | .more => .stop (fail .unexpected (hist ++ [c]) 1)
+      | .done => .stop { authn := true, hist := hist ++ [c], consumed := 1 }
+      | .authnErr => .stop (fail .authnErr (hist ++ [c]) 1)
+      | .otherErr => .stop (fail (stepErr (mech (hist ++ [c]))) (hist ++ [c]) 1)
+  | .failure b => .stop (fail (failErr b) hist 1)
+  | .other => .stop (fail .unexpected hist 1)
+  | .otherNs => .stop (fail .unexpected hist 1)
+  | .space => .stop (fail .unexpected hist 1)
+
+def CSess.step (cm : List (String × Mech)) : CSess → CSess
+  | .finished r => .finished r
+  | .init adv peer =>
+    match select cm adv with
+    | none => .finished (fail .nomech [] 0)
+    | some (name, mech) =>
+      if name = "" then .finished (fail .nomech [] 0) else
+      match (mech []).kind with
+      | .authnErr => .finished { fail .authnErr [] 0 with used := some name }
+      | .otherErr => .finished { fail (stepErr (mech [])) [] 0 with used := some name }
+      | .more => .looping name mech [] peer [.auth name (mech []).resp] 0
+      | .done => .closing name [] peer [.auth name (mech []).resp] 0
+  | .looping name _ hist [] sent n => .finished ((fail .eof hist 0).prefixed name sent n)
+  | .looping name mech hist (ev :: rest) sent n =>
+    match cevent mech hist ev with
+    | .stop r => .finished (r.prefixed name sent n)
+    | .more h resp => .looping name mech h rest (sent ++ [.response resp]) (n + 1)
+    | .done h resp => .closing name h rest (sent ++ [.response resp]) (n + 1)
+  | .closing name hist rest sent n => .finished ((readFinal hist rest).prefixed name sent n)
+
+def CSess.iter (cm : List (String × Mech)) : Nat → CSess → CSess
+  | 0, s => s
+  | k + 1, s => CSess.iter cm k (s.step cm)
+
+/-- the product of initiating sessions -/
+def runSchedC (cm : List (String × Mech)) : List CSess → List Nat → List CSess
+  | ss, [] => ss
+  | ss, i :: sched => runSchedC cm (ss.modify i (CSess.step cm)) sched
+
+/-- what initiating sessions could share (a cached selection, a negotiator kept across
+connections, a response buffer): how the store enters a quantum, what a quantum leaves -/
+structure SharedC (σ : Type) where
+  init : σ
+  read : σ → CSess → CSess
+  write : String → σ → CSess → σ
+  read_init : ∀ s, read init s = s
+
+def stepSharedC {σ : Type} (sh : SharedC σ) (W : List String) (cm : List (String × Mech))
+    (g : σ) (s : CSess) : σ × CSess :=
+  let s' := CSess.step cm (sh.read g s)
+  (W.foldl (fun g v => sh.write v g s') g, s')
+
+def runSchedSharedC {σ : Type} (sh : SharedC σ) (W : List String) (cm : List (String × Mech)) :
+    σ → List CSess → List Nat → σ × List CSess
+  | g, ss, [] => (g, ss)
+  | g, ss, i :: sched =>
+    match ss[i]? with
+    | none => runSchedSharedC sh W cm g ss sched
+    | some s =>
+      runSchedSharedC sh W cm (stepSharedC sh W cm g s).1 (ss.set i (stepSharedC sh W cm g s).2) sched
+
+/-- the regression a package-level "last selection" would be: a session that has not selected
+yet takes over the running exchange of another one -/
+def leakySharedC : SharedC (Option (String × Mech × List Bytes)) where
+  init := none
+  read := fun g s => match g, s with
+    | some (name, mech, hist), .init _ peer => .looping name mech hist peer [] 0
+    | _, s => s
+  write := fun _ g s => match s with
+    | .looping name mech hist _ _ _ => some (name, mech, hist)
+    | _ => g
+  read_init := by intro s; rfl
+
+def csessSummary : CSess → Option (Bool × Err × List CSent)
+  | .finished r => some (r.authn, r.err, r.sent)
+  | _ => none
 
 end XmppModel.Sasl
